@@ -12,7 +12,7 @@
    (C12_warp_elapse is the warp clause for the other segments, those starting on beat 0 included; C12_half_tick the
    bound in beats). *)
 From Coq Require Import List ZArith QArith Qabs Bool Sorting.Sorted.
-From SV Require Import Sx Beat Engine Proofs.EngineFacts Proofs.Hittable Proofs.TimeLaw Proofs.BeatAt Proofs.WarpElapse Proofs.RoundTripEvent Proofs.BeatMono.
+From SV Require Import Sx Beat Engine Proofs.EngineFacts Proofs.Hittable Proofs.TimeLaw Proofs.BeatAt Proofs.WarpElapse Proofs.RoundTripEvent Proofs.BeatMono Proofs.OwnTime.
 Import ListNotations.
 Open Scope Q_scope.
 
@@ -105,6 +105,22 @@ Theorem C12_monotone : forall td b0 v0 rest, dom td -> td_bpms td = (b0, v0) :: 
 Proof. exact beat_at_monotone. Qed.
 Print Assumptions C12_monotone.
 
+(* "its own time lies within half a tick's duration of the asked time": the answer converted back with time_at (under any
+   tag) is within (1/96 beat) x (seconds per beat in force) of the asked time, whenever the selected state is neither a
+   pause nor inside a warp and the answer falls strictly between the events before and after it (on an event beat the
+   difference is widened by the pauses on that beat - left to the correspondence's oracle) *)
+Theorem C12_own_time_interior : forall td b0 v0 rest, dom td -> td_bpms td = (b0, v0) :: rest -> b0 == 0 ->
+  forall P R t q tag, events td = P ++ R ->
+  s_warp (St td v0 P) = false -> is_pause_tag (s_tag (St td v0 P)) = false ->
+  s_time (St td v0 P) < t -> (forall x, In x (tl (run_states (St td v0 P) R)) -> t < s_time x) ->
+  (forall p, In p P -> e_beat p < fst (beat_at_raw (sts td v0) (init_state td v0) t q)) ->
+  (forall r, In r R -> fst (beat_at_raw (sts td v0) (init_state td v0) t q) < e_beat r) ->
+  (0 < fst (beat_at_raw (sts td v0) (init_state td v0) t q) \/ (2 <= tag)%Z) ->
+  Qabs (time_at (sts td v0) (init_state td v0) (fst (beat_at_raw (sts td v0) (init_state td v0) t q)) tag - t)
+    <= (1 # 96) * (60 / s_bpm (St td v0 P)).
+Proof. exact own_time_interior. Qed.
+Print Assumptions C12_own_time_interior.
+
 (* the same on any list of states whose times never decrease and whose consecutive states are one step apart *)
 Theorem C12_monotone_chain : forall sts d t1 t2 q, sts <> [] -> times_sorted sts -> chain sts -> t1 <= t2 ->
   fst (beat_at_raw sts d t1 q) <= fst (beat_at_raw sts d t2 q).
@@ -177,4 +193,14 @@ Proof. vm_compute. reflexivity. Qed.
 Definition td_w0 : tdata := {| td_bpms := [(0, 120)]; td_stops := []; td_delays := []; td_warps := [(0, 4)]; td_offset := -1 |}.
 Example C12_warp_at_zero_example :
   Qeq_bool (beat_at_of td_w0 1 tWARP) 0 && Qeq_bool (beat_at_of td_w0 1 tSTOP) 4 && Qeq_bool (beat_at_of td_w0 (3 # 2) tSTOP) 5 = true.
+Proof. vm_compute. reflexivity. Qed.
+
+(* a concrete instance of the half-tick clause: BPM 120, asked time 1.003 s (beat 2.006): the answer is beat 2, whose own
+   time 1.0 s is within (1/96) x 0.5 s of the asked time *)
+Example C12_own_time_example :
+  match states (td0 []) with
+  | EOk l => let d := hd {| s_beat := 0; s_val := 0; s_tag := 0; s_time := 0; s_bpm := 1; s_warp := false |} l in
+             let a := fst (beat_at_raw l d (1003 # 1000) tSTOP) in
+             Qeq_bool a 2 && Qle_bool (Qabs (time_at l d a tSTOP - (1003 # 1000))) ((1 # 96) * (60 / 120))
+  | _ => false end = true.
 Proof. vm_compute. reflexivity. Qed.
